@@ -258,7 +258,17 @@ def _histories(draw):
         w = words[0]
         i = draw(st.integers(0, len(w)))
         site = g.site if draw(st.booleans()) else g.rsite
-        if draw(st.booleans()) and len(w) > len(site):
+        if draw(st.integers(0, 3)) == 0:
+            # three sites of another enzyme the kits use (harmless for this class)
+            other = draw(st.sampled_from([e for e in ("BsaI", "BsmBI", "BbsI") if
+                                          dna.geometry(dna.enzyme_by_name(e)).site != g.site]))
+            fs = dna.geometry(dna.enzyme_by_name(other)).site
+            w2 = w
+            for _ in range(3):
+                j = draw(st.integers(0, len(w2)))
+                w2 = w2[:j] + fs + w2[j:]
+            words.append(w2)
+        elif draw(st.booleans()) and len(w) > len(site):
             # written over existing letters: every other offset stays where it was
             i = min(i, len(w) - len(site))
             words.append(w[:i] + site + w[i + len(site):])
